@@ -119,6 +119,21 @@ mutual
         match c.f.exprs[r]? with
         | some (.callResult _) => (e0 ++ e1, { s with called := s.called.set! r true })
         | _ => (e0 ++ e1 ++ [s!"call result handle {r} is not a CallResult expression"], s)
+    | .atomic p _ cmp v res =>
+      let e0 := useErr c s "atomic pointer" p ++ useErr c s "atomic value" v ++
+        (match cmp with | some h => useErr c s "atomic compare value" h | none => [])
+      let e1 := match res with
+        | none => []
+        | some r => match c.f.exprs[r]? with
+          | some (.other n) => if n == "ExprAtomicResult" then [] else [s!"atomic result handle {r} is not an AtomicResult expression ({n})"]
+          | _ => [s!"atomic result handle {r} is not an AtomicResult expression"]
+      (e0 ++ e1, s)
+    | .wgul p r =>
+      let e0 := useErr c s "workgroupUniformLoad pointer" p
+      let e1 := match c.f.exprs[r]? with
+        | some (.other n) => if n == "ExprWorkGroupUniformLoadResult" then [] else [s!"workgroupUniformLoad result handle {r} is not a WorkGroupUniformLoadResult expression ({n})"]
+        | _ => [s!"workgroupUniformLoad result handle {r} is not a WorkGroupUniformLoadResult expression"]
+      (e0 ++ e1, s)
     | _ => ([], s)
 end
 
